@@ -155,6 +155,16 @@ pub fn make_app(cfg: &Cfg, mismatch: bool) -> App {
     if cfg.bundle {
         app.replicate_bundle::<(X, Y)>();
     }
+    if cfg.markers {
+        use bevy_replicon::shared::replication::{command_markers::MarkerConfig, replication_registry::command_fns};
+        app.register_marker_with::<HistMarker>(MarkerConfig { need_history: true, ..Default::default() })
+            .register_marker::<PlainMarker>()
+            .set_marker_fns::<PlainMarker, A>(command_fns::default_write::<A>, command_fns::default_remove::<A>)
+            .set_marker_fns::<PlainMarker, S>(command_fns::default_write::<S>, command_fns::default_remove::<S>);
+        app.add_observer(|t: Trigger<OnAdd, Replicated>, mut commands: Commands| {
+            commands.entity(t.target()).insert((HistMarker, PlainMarker));
+        });
+    }
     if cfg.owners {
         app.replicate::<OwnedBy>();
         if cfg.sync {
